@@ -19,7 +19,7 @@ def tokens (j : Json) : Json :=
   let implToks := (jarr j "impl").toList.map tokOf
   let v := HL.Spec.LexSpec.judge input implToks
   Json.mkObj [("model", arrJ tokJ model), ("spec_ok", v.ok), ("in_domain", true),
-    ("known", Json.arr (v.known.toArray.map Json.str)), ("why", v.why), ("nontrivial", !input.isEmpty)]
+    ("known", Json.arr #[]), ("why", v.why), ("nontrivial", !input.isEmpty)]
 
 def decode (j : Json) : Json :=
   if jhas j "r" then
